@@ -55,7 +55,8 @@ fn rand_dual2(r: &mut Rng) -> Dual2 {
 }
 fn rand_cal(r: &mut Rng) -> Cal {
     let mask: Vec<u8> = (0..7u8).filter(|_| r.chance(0.3)).collect();
-    let hols: Vec<NaiveDateTime> = (0..r.below(30)).map(|_| dn(r.range(0, 84000))).collect();
+    // (a holiday is a date-TIME in the data model: now and then one carries a time of day)
+    let hols: Vec<NaiveDateTime> = (0..r.below(30)).map(|_| dn(r.range(0, 84000)) + chrono::Duration::seconds(if r.chance(0.1) { r.range(1, 86399) } else { 0 })).collect();
     Cal::new(hols, mask)
 }
 
